@@ -85,7 +85,7 @@ def main():
         "real erbium-dns with an ACL that refuses 127.0.9.0/24: serial floods of UDP queries from refused sources (with and without "
         "cookies), every REFUSED datagram received is logged with time and size; every window of the log is checked against "
         "2B + 2R*(dt+1) octets (two hash buckets per source; B, R read from the code's constants through the harness); fresh source "
-        "addresses that were silent so far must receive REFUSED; a server cookie obtained over TCP exempts its owner and nobody else; "
+        "addresses that were silent so far must receive REFUSED; (thorough) the flooded source, silent for B/R seconds, must hear REFUSED again; a bare client cookie exempts nobody; a server cookie obtained over TCP exempts its owner and nobody else; "
         "distinct = (phase, outcome)", floor=8)
     d = base.scratch_dir("c16")
     procs, ups = [], []
@@ -140,6 +140,10 @@ def main():
         sent, got, _ = flood("127.0.9.1", n1, 20.0 if thorough else 8.0)
         ref1 = check_windows("flood-no-cookie", got, "127.0.9.1")
         leg.count("flood_queries", len(sent))
+        flood_end = time.monotonic()
+        # a client cookie alone (no server part) was never issued by anybody: not exempt
+        sent, got, _ = flood("127.0.9.2", 300 if thorough else 150, 3.0, cookie=bytes(range(8)), qprefix="cc")
+        check_windows("client-cookie-only", got, "127.0.9.2")
         # ---- phase 2: quiet sources (never seen before) each send one query
         heard = 0
         quiet = ["127.0.9.%d" % i for i in (range(11, 21) if thorough else range(11, 16))]
@@ -188,6 +192,22 @@ def main():
             bad = server_cookie[:-1] + bytes([server_cookie[-1] ^ 1])
             sent, got, _ = flood("127.0.9.30", 200, 3.0, cookie=bad, qprefix="bd")
             check_windows("corrupted-cookie", got, "127.0.9.30")
+        # ---- phase 4 (thorough): the flooded source stays silent for the refill period B/R, then must hear REFUSED again,
+        # however many of its queries were dropped during the flood (dropped queries must not run up a debt)
+        if thorough:
+            period = B / float(R)
+            left = flood_end + period + 5.0 - time.monotonic()
+            if left > 0:
+                time.sleep(left)
+            rs = dnslib.udp_query(SERVER, dnslib.build_query(9, "afteridle.refused.test", edns=1232), src=("127.0.9.1", 0), timeout=3.0)
+            leg.eval()
+            ok = bool(rs) and (dnslib.parse(rs[0][0]).rcode & 0xF) == REFUSED
+            leg.cls("flooded-then-idle|%s" % ("refused" if ok else "silence"))
+            leg.count("idle_period_waited_s", int(period + 5))
+            if not ok:
+                leg.violation("C16/quiet-source-gets-silence/after-flood",
+                              "127.0.9.1 sent %d queries in the flood (%d answered), then nothing for %.0f s (refill period %.0f s); its next query got no REFUSED" % (n1, len(ref1), period + 5, period),
+                              {"engine": "c16-e2e", "phase": "flooded-then-idle", "burst_B": B, "rate_R": R})
         for line in p.panics():
             leg.violation("C16/handler-panic/%s" % base.panic_signature(line), line.strip(), {"engine": "c16-e2e"})
         if not p.alive():
